@@ -39,7 +39,7 @@ hooks_file = os.path.join(VERIF, "manifest.d", "hooks.json")
 hooks = json.load(open(hooks_file)) if os.path.exists(hooks_file) else {}
 manifest = {
     "version": 1,
-    "setup_cmd": "cd lean && lake build",
+    "setup_cmd": "/venv/bin/python -m harness.genconst && cd lean && lake build",
     "hooks": {
         "guard": "ST4SD_RUNTIME_CORE_VERIF",
         "enable": hooks.get("enable", "not used: the harness monkey-patches the runtime from its own process; no guarded hook exists in /repo"),
